@@ -474,3 +474,232 @@ Proof.
       * apply roots_sub_all.
       * apply desc_sub_all.
 Qed.
+
+(** * From the decidable predicates to the hypotheses *)
+Lemma lookup_in : forall i m e, lookup i m = Some e -> In (i, e) m.
+Proof.
+  intros i m e. induction m as [|[j e'] m IH]; cbn; intro H; [discriminate|].
+  destruct (N.eqb j i) eqn:E.
+  - apply N.eqb_eq in E. inversion H; subst. left. reflexivity.
+  - right. auto.
+Qed.
+
+Lemma edits_freshb_sound : forall m, edits_freshb m = true -> edits_fresh m.
+Proof.
+  intros m Hb i e f x El Hf Hx j Hj.
+  unfold edits_freshb in Hb. rewrite forallb_forall in Hb.
+  pose proof (Hb _ (lookup_in _ _ _ El)) as H1. cbn in H1.
+  rewrite forallb_forall in H1. pose proof (H1 _ Hf) as H2.
+  rewrite forallb_forall in H2. pose proof (H2 _ Hx) as H3.
+  rewrite forallb_forall in H3. pose proof (H3 _ Hj) as H4.
+  unfold has_key in H4. destruct (lookup j m); [discriminate | reflexivity].
+Qed.
+
+Lemma single_anchorb_sound : forall m, single_anchorb m = true -> single_anchor m.
+Proof.
+  intros m Hb i e El. unfold single_anchorb in Hb. rewrite forallb_forall in Hb.
+  pose proof (Hb _ (lookup_in _ _ _ El)) as H1. cbn in H1. apply Nat.leb_le. assumption.
+Qed.
+
+Lemma list_max_in : forall l x, In x l -> x <= list_max l.
+Proof.
+  intros l x H.
+  assert (Forall (fun k => k <= list_max l) l) as F by (apply list_max_le; apply le_n).
+  rewrite Forall_forall in F. auto.
+Qed.
+
+Lemma edits_le_max : forall m, edits_le m (list_max (edit_heights m)).
+Proof.
+  intros m i e f x El Hf Hx. apply list_max_in. unfold edit_heights.
+  apply in_flat_map. exists (i, e). split; [apply lookup_in; assumption|].
+  cbn. apply in_flat_map. exists f. split; [assumption|]. apply in_map. assumption.
+Qed.
+
+Lemma ids_uniqueb_desc : forall t, ids_uniqueb t = true -> NoDup (desc_ids t).
+Proof.
+  intros t H. apply nodupb_NoDup in H. rewrite all_ids_cons in H. inversion H; assumption.
+Qed.
+
+(** * Refinement, top level *)
+Theorem apply_fixes_refines : forall t m fuel,
+  ids_uniqueb t = true -> edits_freshb m = true -> single_anchorb m = true ->
+  height t + list_max (edit_heights m) < fuel ->
+  exists m', apply_fixes fuel t m = Some (rw m t, m').
+Proof.
+  intros t m fuel Hu Hf Hs Hfuel.
+  destruct (apply_refines fuel t m (list_max (edit_heights m))) as [m' [E _]].
+  - apply edits_le_max.
+  - apply edits_freshb_sound; assumption.
+  - apply single_anchorb_sound; assumption.
+  - apply ids_uniqueb_desc; assumption.
+  - assumption.
+  - exists m'. assumption.
+Qed.
+
+Lemma fuel_for_enough : forall t m, height t + list_max (edit_heights m) < fuel_for t m.
+Proof.
+  intros t m. unfold fuel_for. rewrite Nat.mul_succ_r. lia.
+Qed.
+
+Theorem apply_batch_spec : forall t fs m,
+  compute_anchor_edit_info fs = Some m ->
+  ids_uniqueb t = true -> edits_freshb m = true -> single_anchorb m = true ->
+  apply_batch t fs = Some (rw m t).
+Proof.
+  intros t fs m Em Hu Hf Hs. unfold apply_batch. rewrite Em.
+  destruct (apply_fixes_refines t m (fuel_for t m) Hu Hf Hs (fuel_for_enough t m)) as [m' E].
+  rewrite E. reflexivity.
+Qed.
+
+(** * Leaf level: batches anchored on tokens rewrite the leaf list in place *)
+Fixpoint inner_ids (s : seg) : list N :=
+  match s with
+  | Leaf _ _ _ _ => []
+  | Node _ _ cs =>
+      flat_map (fun c => match c with Leaf _ _ _ _ => [] | Node i _ _ => [i] end ++ inner_ids c) cs
+  end.
+
+Lemma flat_map_flat_map : forall {A B C} (f : B -> list C) (g : A -> list B) l,
+  flat_map f (flat_map g l) = flat_map (fun x => flat_map f (g x)) l.
+Proof.
+  intros A B C f g l. induction l as [|x l IH]; cbn; [reflexivity|].
+  rewrite flat_map_app. rewrite IH. reflexivity.
+Qed.
+
+Lemma child_leaves : forall m c,
+  (match c with Leaf _ _ _ _ => True | Node i _ _ => lookup i m = None end) ->
+  (forall cs i k, c = Node i k cs -> leaves (rw m c) = rewrite m (leaves c)) ->
+  flat_map leaves (sel' m c) = rewrite m (leaves c).
+Proof.
+  intros m c Hroot Hnode. destruct c as [i k cl r | i k cs].
+  - unfold sel', rewrite. cbn. unfold rewrite1. cbn.
+    destruct (lookup i m); cbn; rewrite ?app_nil_r; reflexivity.
+  - unfold sel'. cbn [seg_id]. rewrite Hroot. cbn [flat_map]. rewrite app_nil_r.
+    eapply Hnode. reflexivity.
+Qed.
+
+Theorem leaves_rw_rewrite : forall m t,
+  no_children t = false ->
+  (forall j, In j (inner_ids t) -> lookup j m = None) ->
+  leaves (rw m t) = rewrite m (leaves t).
+Proof.
+  intros m t. induction t as [i k c r | i k cs IH] using seg_ind'; intros Hroot H; [discriminate|].
+  rewrite rw_node. cbn [leaves]. unfold rewrite at 1.
+  rewrite !flat_map_flat_map. apply flat_map_ext_in. intros c Hc.
+  rewrite Forall_forall in IH.
+  change (flat_map (rewrite1 m) (leaves c)) with (rewrite m (leaves c)).
+  apply child_leaves.
+  - destruct c as [|ci ck ccs]; [exact I|]. apply H. cbn. apply in_flat_map.
+    exists (Node ci ck ccs). split; [assumption|]. left. reflexivity.
+  - intros ccs ci ck Ec. subst c. destruct ccs as [|c1 ccs].
+    + reflexivity.
+    + apply IH; [assumption | reflexivity |].
+      intros j Hj. apply H. cbn [inner_ids]. apply in_flat_map.
+      exists (Node ci ck (c1 :: ccs)). split; [assumption|]. apply in_or_app. right. assumption.
+Qed.
+
+(** * Content preservation *)
+Definition same_content (t t' : seg) : Prop :=
+  code_seq (leaves t') = code_seq (leaves t) /\
+  forall c, count_str c (comment_seq (leaves t')) = count_str c (comment_seq (leaves t)).
+
+Lemma count_notin : forall c l, ~ In c l -> count_str c l = 0.
+Proof.
+  intros c l. unfold count_str. induction l as [|x l IH]; cbn; intro H; [reflexivity|].
+  destruct (str_eqb c x) eqn:E.
+  - apply str_eqb_eq in E. subst x. exfalso. apply H. left. reflexivity.
+  - apply IH. intro Hin. apply H. right. assumption.
+Qed.
+
+Lemma same_bagb_sound : forall a b, same_bagb a b = true -> forall c, count_str c a = count_str c b.
+Proof.
+  intros a b H c. unfold same_bagb in H. rewrite forallb_forall in H.
+  destruct (in_dec (list_eq_dec N.eq_dec) c (a ++ b)) as [Hin|Hnin].
+  - apply Nat.eqb_eq. apply H. assumption.
+  - rewrite !count_notin; [reflexivity | | ]; intro Hc; apply Hnin; apply in_or_app; auto.
+Qed.
+
+Lemma same_contentb_sound : forall t t', same_contentb t t' = true -> same_content t t'.
+Proof.
+  intros t t' H. unfold same_contentb in H. apply andb_true_iff in H. destruct H as [H1 H2].
+  split; [apply strs_eqb_eq; assumption | apply same_bagb_sound; assumption].
+Qed.
+Lemma same_content_refl : forall t, same_content t t.
+Proof. intro t. split; auto. Qed.
+Lemma same_content_trans : forall a b c, same_content a b -> same_content b c -> same_content a c.
+Proof.
+  intros a b c [H1 H2] [H3 H4]. split; [congruence|]. intro x. rewrite H4. apply H2.
+Qed.
+
+(** * The fix loop *)
+Lemma step_cases : forall t seen fs t' seen',
+  step (t, seen) fs = Some (t', seen') ->
+  (t' = t /\ seen' = seen) \/ (apply_batch t fs = Some t' /\ seen' = seg_raw t' :: seen).
+Proof.
+  intros t seen fs t' seen' H. unfold step in H.
+  destruct (apply_batch t fs) as [u|] eqn:E; [|discriminate].
+  destruct (mem (seg_raw u) seen); inversion H; subst; auto.
+Qed.
+
+Lemma step_preserves : forall st fs st',
+  batch_okb (fst st) fs = true -> step st fs = Some st' -> same_content (fst st) (fst st').
+Proof.
+  intros [t seen] fs [t' seen'] Hok Hstep. cbn [fst] in *.
+  unfold batch_okb in Hok. destruct (compute_anchor_edit_info fs) as [m|] eqn:Em; [|discriminate].
+  apply andb_true_iff in Hok. destruct Hok as [Hok Hn].
+  apply andb_true_iff in Hok. destruct Hok as [Hok Hs].
+  apply andb_true_iff in Hok. destruct Hok as [Hu Hf].
+  destruct (step_cases _ _ _ _ _ Hstep) as [[E _]|[E _]].
+  - subst t'. apply same_content_refl.
+  - rewrite (apply_batch_spec t fs m Em Hu Hf Hs) in E. inversion E; subst.
+    apply same_contentb_sound. exact Hn.
+Qed.
+
+Theorem run_preserves : forall bs st,
+  run_okb st bs = true ->
+  exists st', run st bs = Some st' /\ same_content (fst st) (fst st').
+Proof.
+  induction bs as [|fs bs IH]; intros st H; cbn in *.
+  - exists st. split; [reflexivity | apply same_content_refl].
+  - apply andb_true_iff in H. destruct H as [Hb Hr].
+    destruct (step st fs) as [st1|] eqn:Es; [|discriminate].
+    destruct (IH st1 Hr) as [st' [Erun Hc]].
+    exists st'. split; [assumption|].
+    eapply same_content_trans; [eapply step_preserves; eassumption | assumption].
+Qed.
+
+(** * Text level *)
+Section Text.
+  (** the dialect's lexer as an oracle: (class, raw) per token *)
+  Variable lex : str -> list (N * str).
+
+  Definition code_toks (ts : list (N * str)) : list str :=
+    map snd (filter (fun t => N.eqb (fst t) 0) ts).
+  Definition comment_toks (ts : list (N * str)) : list str :=
+    map snd (filter (fun t => N.eqb (fst t) 1) ts).
+
+  (** the text of a tree lexes back to the code tokens and comments the tree holds *)
+  Definition relex_stable (t : seg) : Prop :=
+    code_toks (lex (seg_raw t)) = code_seq (leaves t) /\
+    forall c, count_str c (comment_toks (lex (seg_raw t))) = count_str c (comment_seq (leaves t)).
+
+  Theorem text_preserved : forall src fixed t0 bs,
+    seg_raw t0 = src ->                       (* the parsed tree spells the source (C02) *)
+    relex_stable t0 ->                        (* ... and holds its tokens *)
+    run_okb (init_state t0) bs = true ->      (* every applied batch passed the monitors *)
+    exists tf seen,
+      run (init_state t0) bs = Some (tf, seen) /\
+      (fixed = seg_raw tf ->                  (* the output is the final tree's text (C04) *)
+       relex_stable tf ->                     (* monitored: no two leaves fuse when re-lexed *)
+       code_toks (lex fixed) = code_toks (lex src) /\
+       (forall c, count_str c (comment_toks (lex fixed)) = count_str c (comment_toks (lex src))) /\
+       code_toks (lex fixed) = code_seq (leaves tf)).
+  Proof.
+    intros src fixed t0 bs Esrc [R0c R0m] Hok.
+    destruct (run_preserves bs (init_state t0) Hok) as [[tf seen] [Erun [Hc Hm]]].
+    exists tf, seen. split; [assumption|].
+    intros Efix [Rfc Rfm]. cbn [fst init_state] in Hc, Hm. subst fixed src.
+    split; [congruence|]. split; [|assumption].
+    intro c. rewrite Rfm, Hm, R0m. reflexivity.
+  Qed.
+End Text.
